@@ -1,5 +1,364 @@
 package main
 
+import (
+	"bytes"
+	"context"
+	"fmt"
+	"os"
+	"os/exec"
+	"path/filepath"
+	"sort"
+	"strconv"
+	"strings"
+	"sync"
+	"syscall"
+	"time"
+	"unsafe"
+
+	"github.com/koestler/go-victron/vedirect"
+	"github.com/koestler/go-victron/vedirectapi"
+	"github.com/koestler/go-victron/veproduct"
+	"github.com/koestler/go-victron/veregister"
+)
+
 func runCliSuite(suite string, rng *Rng, thorough bool, s *Sink) bool {
-	return false
+	if suite != "c20" {
+		return false
+	}
+	suiteC20(rng, thorough, s)
+	return true
+}
+
+// ---- pseudo terminal ----
+
+func openPty() (master *os.File, slave string, err error) {
+	master, err = os.OpenFile("/dev/ptmx", os.O_RDWR|syscall.O_NOCTTY, 0)
+	if err != nil {
+		return nil, "", err
+	}
+	var unlock int32
+	if _, _, e := syscall.Syscall(syscall.SYS_IOCTL, master.Fd(), 0x40045431 /* TIOCSPTLCK */, uintptr(unsafe.Pointer(&unlock))); e != 0 {
+		master.Close()
+		return nil, "", e
+	}
+	var n uint32
+	if _, _, e := syscall.Syscall(syscall.SYS_IOCTL, master.Fd(), 0x80045430 /* TIOCGPTN */, uintptr(unsafe.Pointer(&n))); e != 0 {
+		master.Close()
+		return nil, "", e
+	}
+	return master, fmt.Sprintf("/dev/pts/%d", n), nil
+}
+
+// serveDevice: a VE.Direct device on the pty master, answering from `dev` (the same reactive device the API
+// suites use); stops when the master is closed
+func serveDevice(master *os.File, dev *DevPort, wg *sync.WaitGroup) {
+	defer wg.Done()
+	var pending []byte
+	buf := make([]byte, 4096)
+	for {
+		n, err := master.Read(buf)
+		if n > 0 {
+			pending = append(pending, buf[:n]...)
+			for {
+				i := bytes.IndexByte(pending, '\n')
+				if i < 0 {
+					break
+				}
+				frame := pending[:i+1]
+				pending = pending[i+1:]
+				dev.queue = nil
+				dev.Write(frame)
+				if len(dev.queue) > 0 {
+					master.Write(dev.queue)
+				}
+			}
+		}
+		if err != nil {
+			return
+		}
+	}
+}
+
+type cliRun struct {
+	stdout   string
+	ioLog    string
+	timedOut bool
+	err      error
+}
+
+func runVecli(bin string, dev *DevPort, verbose, ioLog bool, limit time.Duration) cliRun {
+	master, slave, err := openPty()
+	if err != nil {
+		return cliRun{err: err}
+	}
+	var wg sync.WaitGroup
+	wg.Add(1)
+	go serveDevice(master, dev, &wg)
+	args := []string{"vedirect", "-d", slave}
+	if verbose {
+		args = append(args, "-v")
+	}
+	logPath := ""
+	if ioLog {
+		f, _ := os.CreateTemp("", "verif-iolog-*")
+		logPath = f.Name()
+		f.Close()
+		defer os.Remove(logPath)
+		args = append(args, "--io-log", logPath)
+	}
+	ctx, cancel := context.WithTimeout(context.Background(), limit)
+	defer cancel()
+	cmd := exec.CommandContext(ctx, bin, args...)
+	var out bytes.Buffer
+	cmd.Stdout = &out
+	cmd.Stderr = new(bytes.Buffer) // the debug log goes to stderr
+	rerr := cmd.Run()
+	r := cliRun{stdout: out.String(), err: rerr}
+	if ctx.Err() != nil {
+		r.timedOut = true
+	}
+	master.Close()
+	wg.Wait()
+	if logPath != "" {
+		b, _ := os.ReadFile(logPath)
+		r.ioLog = string(b)
+	}
+	return r
+}
+
+// ---- scenario ----
+
+// canonical line: sort|name=<value text as printed>
+type cliLine struct {
+	sort int
+	name string
+	text string
+}
+
+func expectedRegs(p veproduct.Product) (veregister.RegisterList, bool) {
+	rl, err := veregister.GetRegisterListByProduct(p)
+	return rl, err == nil
+}
+
+func suiteC20(rng *Rng, thorough bool, s *Sink) {
+	exe, _ := os.Executable()
+	bin := filepath.Join(filepath.Dir(exe), "vecli")
+	if v := os.Getenv("VERIF_VECLI"); v != "" {
+		bin = v
+	}
+	if _, err := os.Stat(bin); err != nil {
+		s.Violate("CL setup", "", "vecli binary not found next to the harness: "+bin)
+		return
+	}
+	ids := []uint16{0x203, 0xA381, 0xA389, 0xA056, 0xA053, 0xA231}
+	if thorough {
+		ids = append(ids, 0x204, 0xA383, 0xA38A, 0xA05F, 0xA060, 0xA042, 0x0300, 0xA2B1, 0xA2FA, 0xA04C, 0xA066)
+	}
+	type scen struct {
+		id      uint16
+		verbose bool
+		ioLog   bool
+		silent  int // -1: answers everything; k: silent after k answered Gets
+		noPing  bool
+		midFrame bool // the device dies in the middle of the frame answering the (k+1)-th Get
+	}
+	var scens []scen
+	for i, id := range ids {
+		scens = append(scens, scen{id, false, false, -1, false, false})
+		scens = append(scens, scen{id, i%2 == 0, true, -1, false, false})
+		if thorough {
+			scens = append(scens, scen{id, true, false, -1, false, false}, scen{id, true, true, -1, false, false})
+		}
+	}
+	scens = append(scens, scen{0xA056, false, false, 0, false, false}, scen{0xA381, false, true, 7, false, false}, scen{0x203, true, false, 3, false, false}, scen{0xA231, false, false, -1, true, false},
+		scen{0xA053, false, false, 5, false, true}, scen{0x203, false, true, 0, false, true})
+	if thorough {
+		for k := 0; k < 30; k++ {
+			scens = append(scens, scen{ids[rng.Intn(len(ids))], rng.Bool(), rng.Bool(), rng.Intn(40), false, rng.Bool()})
+		}
+	}
+	for _, sc := range scens {
+		p := veproduct.Product(sc.id)
+		rl, _ := expectedRegs(p)
+		dev := NewDevPort(sc.id)
+		dev.NoPing = sc.noPing
+		dev.SilentAfter = sc.silent
+		dev.DieMidFrame = sc.midFrame
+		var mp []string
+		add := func(kind int, r veregister.Register, e *veregister.EnumRegisterStruct) {
+			pl := answerFor(kind, r, e, rng)
+			if kind == 1 && rng.Intn(3) == 0 {
+				pl = [][]byte{{0xFF, 0xFF}, {0x00, 0x80}, {0xFF, 0xFF, 0xFF, 0x7F}, {0x80}}[rng.Intn(4)]
+			}
+			dev.Regs[r.Address()] = DevAnswer{0, pl}
+			mp = append(mp, fmt.Sprintf("%d=ok:%s", r.Address(), HEX(pl)))
+		}
+		for i := range rl.NumberRegisters {
+			add(1, rl.NumberRegisters[i], nil)
+		}
+		for i := range rl.TextRegisters {
+			add(2, rl.TextRegisters[i], nil)
+		}
+		for i := range rl.EnumRegisters {
+			add(3, rl.EnumRegisters[i], &rl.EnumRegisters[i])
+		}
+		for i := range rl.FieldListRegisters {
+			add(4, rl.FieldListRegisters[i], nil)
+		}
+		sort.Strings(mp)
+		limit := 30 * time.Second
+		run := runVecli(bin, dev, sc.verbose, sc.ioLog, limit)
+		m := strings.Join(mp, ",")
+		if m == "" {
+			m = "-"
+		}
+		sil := "-"
+		if sc.silent >= 0 {
+			sil = strconv.Itoa(sc.silent)
+		}
+		ping := "ok"
+		if sc.noPing {
+			ping = "err"
+		}
+		op := fmt.Sprintf("CL %d %s %s %s", sc.id, ping, sil, m)
+		if sc.midFrame {
+			op += " mut:device-dies-mid-frame"
+		}
+		tag := "full"
+		if sc.silent >= 0 {
+			tag = "silent-after-k"
+		}
+		if sc.midFrame {
+			tag = "dies-mid-frame"
+		}
+		if sc.noPing {
+			tag = "no-ping"
+		}
+		if sc.ioLog {
+			tag += "-iolog"
+		}
+		if sc.verbose {
+			tag += "-v"
+		}
+		viol := func(w string) { s.Violate(op[:min(len(op), 200)], run.stdout[:min(len(run.stdout), 300)], w) }
+		if run.timedOut {
+			s.Line(tag, op, "HANG")
+			viol(fmt.Sprintf("vecli did not terminate within %s (device silent after %d answers)", limit, sc.silent))
+			continue
+		}
+		// parse stdout
+		lines := strings.Split(strings.TrimRight(run.stdout, "\n"), "\n")
+		var errLine string
+		count := -1
+		var regLines []cliLine
+		bySort := map[string]int{}
+		for _, r := range rl.GetRegisters() {
+			bySort[r.Name()] = r.Sort()
+		}
+		prevSort := -1 << 31
+		ordered := true
+		for _, l := range lines {
+			switch {
+			case strings.HasPrefix(l, "error creating api:"):
+				errLine = "connect-error"
+			case strings.HasPrefix(l, "error fetching registers:"):
+				errLine = "fetch-error"
+			case strings.HasPrefix(l, "fetched "):
+				f := strings.Fields(l)
+				count, _ = strconv.Atoi(f[1])
+			case l == "":
+			default:
+				name := strings.SplitN(l, "=", 2)[0]
+				so, ok := bySort[name]
+				if !ok {
+					viol("unexpected output line: " + l)
+					continue
+				}
+				if so < prevSort {
+					ordered = false
+				}
+				prevSort = so
+				regLines = append(regLines, cliLine{so, name, l})
+			}
+		}
+		if !ordered {
+			viol("register lines are not ordered by non-decreasing sort key")
+		}
+		sort.Slice(regLines, func(i, j int) bool {
+			if regLines[i].sort != regLines[j].sort {
+				return regLines[i].sort < regLines[j].sort
+			}
+			return regLines[i].name < regLines[j].name
+		})
+		var parts []string
+		for _, l := range regLines {
+			parts = append(parts, fmt.Sprintf("%d|%s", l.sort, l.text))
+		}
+		out := fmt.Sprintf("%s n=%d %s", map[string]string{"": "ok", "connect-error": "connect-error", "fetch-error": "fetch-error"}[errLine], count, strings.Join(parts, ";;"))
+		s.Line(tag, op, out)
+		// ---- the property, directly ----
+		full := sc.silent < 0 && !sc.noPing
+		if full {
+			if errLine != "" || count != rl.Len() || len(regLines) != rl.Len() {
+				viol(fmt.Sprintf("a healthy device of product 0x%04X must yield %d register lines (header says %d, %d lines, error %q)", sc.id, rl.Len(), count, len(regLines), errLine))
+			}
+			// each line shows the value the device holds, scaled as the register defines (via the verified readers)
+			dev2 := NewDevPort(sc.id)
+			for a, v := range dev.Regs {
+				dev2.Regs[a] = v
+			}
+			if api, err := connectApi(dev2); err == nil {
+				rv, err := api.ReadAllRegisters(context.Background())
+				if err == nil {
+					want := map[string]string{}
+					for _, v := range rv.GetList() {
+						want[v.Name()] = v.String()
+					}
+					for _, l := range regLines {
+						if want[l.name] != l.text {
+							viol(fmt.Sprintf("line %q differs from the register value %q", l.text, want[l.name]))
+						}
+					}
+				}
+			}
+		} else {
+			if errLine == "" {
+				viol("the device stopped answering but no error was reported")
+			}
+		}
+		// the io log replays to the same values
+		if sc.ioLog && full {
+			table := map[string][]byte{}
+			for _, ln := range strings.Split(strings.TrimRight(run.ioLog, "\n"), "\n") {
+				tx, rx, ok := parseIoLine(ln)
+				if !ok {
+					viol("io log line does not parse: " + ln)
+					continue
+				}
+				table[string(tx)] = rx
+			}
+			lp := &lookupPort{table: table}
+			api, err := vedirectapi.NewRegisterApi(lp, vedirect.Config{})
+			if err != nil {
+				viol("replaying the io log: connect fails: " + err.Error())
+			} else {
+				rv, err := api.ReadAllRegisters(context.Background())
+				if err != nil || lp.miss {
+					viol(fmt.Sprintf("replaying the io log fails: err=%v, unknown transmission=%v", err, lp.miss))
+				} else {
+					got := map[string]string{}
+					for _, v := range rv.GetList() {
+						got[v.Name()] = v.String()
+					}
+					for _, l := range regLines {
+						if got[l.name] != l.text {
+							viol(fmt.Sprintf("replayed io log gives %q, the CLI printed %q", got[l.name], l.text))
+						}
+					}
+					s.Extra["io_logs_replayed"]++
+				}
+			}
+		}
+		s.Extra["cli_runs"]++
+	}
 }
